@@ -1545,6 +1545,7 @@ func genC13(g *G) {
 		c13NewEQ(5, "inf", "v1", 1, 0),
 		c13NewEQ(1, "inf", "v1", 1, 0),
 		c13NewEQ(math.MaxInt32, "v20", "v2", 1, 0),
+		c13NewEQ(1, "inf", "v20", 1, 0), // maxError larger than the spread of the target's components (seeded change C08_5)
 	} {
 		c.dfs(8, "normal", 8, []string{L0, "build", u, ti0}, meAlpha, 3)
 	}
